@@ -15,6 +15,7 @@ if [ -n "${VERIF_REPO:-}" ]; then
   tag=$(echo "$VERIF_REPO" | tr -c 'A-Za-z0-9' '_')
   sed "s#=> /repo#=> $VERIF_REPO#" go.mod > ".work/go-$tag.mod"; cp go.sum ".work/go-$tag.sum" 2>/dev/null || touch ".work/go-$tag.sum"
   modflag="-modfile=.work/go-$tag.mod"; bin=".work/check-$prop-$tag"
+  export VERIF_EVIDENCE_DIR="$(pwd)/.work/evidence-$tag"
 fi
 if [ "$prop" = "C18" ]; then
   # C18 is built against the sync shim through a build overlay regenerated from the repository's current files
